@@ -162,10 +162,14 @@ struct GPending { // C15: consequence that must be visible once the reporting so
 
 struct Win6 { // C06: one full reload of a socket that already holds data
 	int si;
+	int xid = -1; // exchange it belongs to
+	int call = 0; // which rtr_sync call on that exchange
 	uint64_t start, end; // stamps
 	bool done = false, success = false;
 	std::set<PfxRec> oldp, newp, otherp;
 	std::set<SpkiRec> olds, news, others;
+	// further states of the other sockets' records, if one of them synchronised while this reload was running
+	std::vector<std::pair<std::set<PfxRec>, std::set<SpkiRec>>> other_alt;
 };
 
 struct Read6 {
